@@ -490,6 +490,7 @@ def run(ctx, crate):
                   "format_bar is given a fraction that is not ProgressState::fraction()", cfg)
     ctx.floor(rule, n, 2, cfg, "format_bar call sites")
     rule_fraction_clamp(ctx, crate)
+    rule_char_width_coherent(ctx, crate)
 
     # ---- R-WIDE-BAR-WIDTH ---------------------------------------------------------------------------------
     rule = "R-WIDE-BAR-WIDTH"
@@ -504,3 +505,45 @@ def run(ctx, crate):
                       "wide_bar's width is not the columns left on the line", cfg)
             adds = [a for a in wsl.atoms if a[0] == "binop" and a[1] in ("Add", "AddWithOverflow", "Mul")]
             ctx.check(not adds, rule, "never-wider", w.name, c.loc(), "nothing is added to the columns left", "the width given to wide_bar is enlarged", cfg)
+
+
+def rule_char_width_coherent(ctx, crate, rule="R-CHAR-WIDTH-COHERENT"):
+    """format_bar divides the width by the *cached* `char_width`: the cache must be the cluster width of the table that is
+    stored with it. In every function that stores `progress_chars`, a store of `char_width` exists whose value is
+    `width(..)` of the same new table (it derives from the function's text argument / the literal being installed), not of
+    the table being replaced."""
+    cfg = crate.config
+    n = 0
+    all_cons = K.constructions(crate, PSTY)
+    for b in K.lib_bodies(crate):
+        if b.kind == "Closure" or ((b.impl or {}).get("trait") or "").startswith("std::clone::Clone"):
+            continue        # a clone copies both fields of a coherent style
+        pcs = [(i, j, s) for i, j, s in b.assigns() if [f for f in place_fields(s["lhs"])][-1:] and place_fields(s["lhs"])[-1][0] == PSTY and place_fields(s["lhs"])[-1][2] == "progress_chars"]
+        cons = [(i, j, s) for (cb, i, j, s) in all_cons if cb.name == b.name]
+        if not pcs and not cons:
+            continue
+        n += 1
+        if pcs:
+            cws = [(i, j, s) for i, j, s in b.assigns() if place_fields(s["lhs"])[-1:] and place_fields(s["lhs"])[-1][0] == PSTY and place_fields(s["lhs"])[-1][2] == "char_width"]
+            ok = bool(cws)
+            why = "the table is replaced without updating the cached cluster width"
+            for i, j, s in cws:
+                sl = b.slice_rv(i, s)
+                new_src = set()
+                for pi, pj, ps in pcs:
+                    psl = b.slice_rv(pi, ps)
+                    new_src |= {c.bb for c in psl.calls} | {("param", p) for p in psl.params() if p != 1}
+                got = {c.bb for c in sl.calls} | {("param", p) for p in sl.params() if p != 1}
+                if not sl.has_call(r"style::width") or not (new_src & got):
+                    ok = False
+                    why = "the cached cluster width is not computed from the table being installed (it measures the table that is replaced, or something else)"
+            ctx.check(ok, rule, "cache-follows-table", b.name, K.fn_loc(b), "char_width is width() of the progress_chars stored by the same call", why, cfg)
+        for i, j, s in cons:
+            f = dict(zip(s["rv"]["fields"], s["rv"]["ops"]))
+            if "char_width" in f and "progress_chars" in f:
+                wsl = b.slice(f["char_width"], at=i)
+                psl = b.slice(f["progress_chars"], at=i)
+                ok = wsl.has_call(r"style::width") and bool({c.bb for c in psl.calls} & {c.bb for c in wsl.calls})
+                ctx.check(ok, rule, "constructor-coherent", b.name, "%s:%d" % (b.file, s.get("line", 0)),
+                          "a new style's char_width is width() of its own progress_chars", "a new style's char_width is not computed from its progress_chars", cfg)
+    ctx.floor(rule, n, 2, cfg, "functions installing a progress_chars table")
